@@ -257,6 +257,17 @@ fn one_history(cfg: &Cfg, r: &mut Report, s: &Arc<Sched>, rt: &tokio::runtime::R
             failed = true;
             break;
         }
+        // sometimes the newest frame of a continuity before the restart is larger than every read window
+        if phases < total_phases && idx % 2 == 0 {
+            let conts = shared.conts.lock().unwrap().clone();
+            let mut k = Known::default();
+            let mut hrng = Rng::derive(idx, 4242);
+            for c in conts.iter().take(2) {
+                let res = exec(&app, &store.data, &[c.clone()], &mut k, OpKind::HugeMsg, &mut hrng, &format!("h{idx}huge"));
+                shared.acked.lock().unwrap().extend(res.acked);
+                r.count("huge_last_frames_before_restart", 1);
+            }
+        }
         drop(app);
         // judge at every restart boundary
         if judge(r, &store, &shared, idx, phases, threads, noise_us) {
